@@ -145,6 +145,50 @@ fn main_check(ctx: &Ctx) -> Outcome {
         out.findings.extend(bfs_findings(&rep, clause_of));
     }
 
+    // (3b) parameter values: every value 0..=70000, leading zeros and very long digit strings, as a
+    // CSI parameter, a sub-parameter, after a private marker with an intermediate, and as a DCS
+    // parameter (saturation at 65535 has its boundary between 65529 and 65536)
+    {
+        let mut digit_strings: Vec<String> = (0..=70000u32).map(|v| v.to_string()).collect();
+        for v in [0u32, 7, 65534, 65535, 65536] {
+            digit_strings.push(format!("000{v}"));
+        }
+        for s in ["99999999999999999999", "18446744073709551616", "4294967296", "655350", "100000"] {
+            digit_strings.push(s.to_string());
+        }
+        let bad = std::sync::Mutex::new(Vec::<Finding>::new());
+        let count = std::sync::atomic::AtomicU64::new(0);
+        digit_strings.par_iter().for_each(|d| {
+            for shape in 0..4 {
+                let stream = match shape {
+                    0 => format!("\x1b[{d}m"),
+                    1 => format!("\x1b[1:{d}:2;{d}m"),
+                    2 => format!("\x1b[?3;{d} q"),
+                    _ => format!("\x1bP{d};{d}q\x1b\\"),
+                };
+                let mut imp = Parser::<anstyle_parse::DefaultCharAccumulator>::new();
+                let mut model = vt::Vt::default();
+                count.fetch_add(1, Ordering::Relaxed);
+                if let Err(m) = guard(|| parser_step(&mut imp, &mut model, stream.as_bytes())).and_then(|r| r.map(|_| ())) {
+                    let mut b = bad.lock().unwrap();
+                    if b.len() < 40 {
+                        b.push(Finding {
+                            system: "Parser::advance/parameter-values".into(),
+                            clause: clause_of(&m),
+                            case: vec![show(stream.as_bytes())],
+                            message: m,
+                            replay: json!({"kind":"bfs","labels":[hex(stream.as_bytes())]}),
+                        });
+                    }
+                }
+            }
+        });
+        let mut b = bad.into_inner().unwrap();
+        b.sort_by_key(|f| (f.case[0].len(), f.key()));
+        out.findings.extend(b);
+        out.push_part(json!({"system":"parameter values 0..=70000 + long digit strings x 4 sequence shapes","streams":count.load(Ordering::Relaxed)}));
+    }
+
     // (4) reset differential
     let focus: Vec<Vec<u8>> = [&b"\x1b"[..], b"[", b"]", b"P", b"1", b";", b"m", b"\x07", b" ", b"a", b"\xc3", b"\xa9", b"q", b"\\"]
         .iter()
